@@ -32,7 +32,7 @@ RULE = (
     'fault per run.  evaluations = simulated executions (fault-free + one per fault); a run is non-trivial when its '
     'fault fired; distinct = distinct event-log digests of such runs.'
 )
-BUDGET = {'quick': (3000, 50), 'thorough': (400_000, 600)}
+BUDGET = {'quick': (6000, 55), 'thorough': (400_000, 600)}
 CHUNK = 20
 COMPONENTS = common.COMPONENTS
 ASSUMPTIONS = [
